@@ -34,12 +34,15 @@ for name in sorted(os.listdir(root)):
         if ap.returncode != 0:
             res = dict(applies=False, error=ap.stderr[-500:])
         else:
-            p = subprocess.run(['./vcheck', pid, '--tier', tier, '--jobs', jobs, '--no-evidence'], cwd='/verif',
-                               env=dict(env, VERIF_REPO=wt), capture_output=True, text=True)
-            out = p.stdout + p.stderr
+            out, rc = '', 0
+            for chk in meta.get('checks', [pid]):  # (a change can break a neighbouring property first: meta['checks'])
+                p = subprocess.run(['./vcheck', chk, '--tier', tier, '--jobs', jobs, '--no-evidence'], cwd='/verif',
+                                   env=dict(env, VERIF_REPO=wt), capture_output=True, text=True)
+                out += p.stdout + p.stderr
+                rc = max(rc, p.returncode)
             keys = re.findall(r'^\s+key=(.*?) cases=', out, re.M)
-            res = dict(applies=True, exit=p.returncode, violation_lines=len(re.findall(r'^VIOLATION property=%s ' % pid, out, re.M)),
-                       keys=keys[:12], summary=(re.findall(r'^%s tier=.*$' % pid, out, re.M) or [''])[-1])
+            res = dict(applies=True, exit=rc, violation_lines=len(re.findall(r'^VIOLATION property=', out, re.M)),
+                       keys=keys[:12], summary=(re.findall(r'^C\d\d tier=.*$', out, re.M) or [''])[-1])
     finally:
         subprocess.run(['git', '-C', '/repo', 'worktree', 'remove', '--force', wt], capture_output=True)
     res.update(property=pid, tier=tier, repo_head=subprocess.run(['git', '-C', '/repo', 'rev-parse', '--short', 'HEAD'], capture_output=True, text=True).stdout.strip(),
